@@ -9,8 +9,8 @@ open GM GM.Text GM.Spec GM.Proof.Reader
 
 /-- the parsers that can be tried on any line of `src` are covered -/
 structure TrigOK (src : Bytes) (al : BP → Bool) : Prop where
-  free : ∀ bp ∈ freeParsers, al bp = true
-  trig : ∀ c ∈ src, ∀ bp ∈ (triggered c).getD freeParsers, al bp = true
+  free : ∀ bp ∈ freeParsers, al bp = true ∨ bp.notList = false
+  trig : ∀ c ∈ src, ∀ bp ∈ (triggered c).getD freeParsers, al bp = true ∨ bp.notList = false
 
 /-! ### the retry measure: B's is A's plus a constant of the line -/
 
@@ -120,15 +120,15 @@ def obJp (b c : Bool) (f q : Nat) (w : Int) (r : OpenResult) (l : Option Block) 
 /-- what the induction on the retry fuel provides -/
 def LoopIH (src : Bytes) (al : BP → Bool) (bA bB cont : Bool) (fA fB : Nat) : Prop :=
   ∀ (q : Nat) (result resultB : OpenResult) (lbA lbB : Option Block) {k ls p : Nat} {sA sB : St},
-    DRL src al k ls p sA sB → LRw al lbA lbB → RRes cont result resultB →
+    DRL src al k ls p sA sB → LRw al lbA lbB → RRes cont result resultB → HC cont result lbA sA →
     S2 (fun a b sA' sB' => RRes cont a b ∧ (resultB = result → b = a) ∧ (∃ p', DR src al k ls p' sA' sB') ∧
         OLU src ls p cont result a)
       (openBlocksLoop bA cont fA q result lbA sA) (openBlocksLoop bB cont fB (q + 1) resultB lbB sB)
 
 theorem obJp_sim {src al} (ps : PS src al) (fr : Frames al) (ot : OT src) (ns : NS src) (bA bB cont : Bool) {fA fB : Nat}
     (ih : LoopIH src al bA bB cont fA fB) (q : Nat) (w : Int) (result resultB : OpenResult) {lbA lbB : Option Block}
-    (hl : LRw al lbA lbB) (bps : List BP) (hbps : ∀ bp ∈ bps, al bp = true) {k ls p} {sA sB : St}
-    (h : DR src al k ls p sA sB) (hres : RRes cont result resultB)
+    (hl : LRw al lbA lbB) (bps : List BP) (hbps : ∀ bp ∈ bps, al bp = true ∨ bp.notList = false) {k ls p} {sA sB : St}
+    (h : DR src al k ls p sA sB) (hres : RRes cont result resultB) (hcl : HC cont result lbA sA)
     (hm1 : w ≤ 3 → BP.paragraph ∈ bps)
     (hm2 : 3 < w → BP.code ∈ bps ∧ ∃ lo : Int, w = (indentWidthI ((viewA src ls p).getD []) lo).1) :
     S2 (fun a b sA' sB' => RRes cont a b ∧ (resultB = result → b = a) ∧ (∃ p', DR src al k ls p' sA' sB') ∧
@@ -138,11 +138,11 @@ theorem obJp_sim {src al} (ps : PS src al) (fr : Frames al) (ot : OT src) (ns : 
   refine S2.bind (get_s2 h) (fun stA stB sA1 sB1 hq => ?_)
   obtain ⟨e1, e2, e3, e4⟩ := hq
   rw [e1, e2, e3, e4]
-  refine S2.bind (tryParsers_sim ps fr ot bA bB cont w q bps hbps result resultB lbA lbB h hl hres) (fun a b sA2 sB2 hq => ?_)
-  obtain ⟨⟨hout, hr, hl2, hnew⟩, heq, ⟨p', h2⟩, hu⟩ := hq
+  refine S2.bind (tryParsers_sim ps fr ot bA bB cont w q bps hbps result resultB lbA lbB h hl hres hcl) (fun a b sA2 sB2 hq => ?_)
+  obtain ⟨⟨hout, hr, hl2, hnew⟩, heq, ⟨p', h2⟩, hu, hcl2⟩ := hq
   obtain ⟨oA, rA, lA⟩ := a
   obtain ⟨oB, rB, lB⟩ := b
-  simp only at hout hr hl2 hnew heq hu ⊢
+  simp only at hout hr hl2 hnew heq hu hcl2 ⊢
   cases oA with
   | retry qa =>
     cases oB with
@@ -160,14 +160,14 @@ theorem obJp_sim {src al} (ps : PS src al) (fr : Frames al) (ot : OT src) (ns : 
         exact S2.errL (throw_bind_err _ _ _)
       · rw [if_neg hc, if_neg hc]
         rw [hrA, hrB]
-        exact S2.mono (ih qa .newBlocksOpened .newBlocksOpened lA lB h2.loose hl2 (.inl rfl))
+        exact S2.mono (ih qa .newBlocksOpened .newBlocksOpened lA lB h2.loose hl2 (.inl rfl) (HC.of_new rfl))
           (fun _ _ _ _ hh => ⟨hh.1, fun _ => hh.2.1 rfl, hh.2.2.1, fun hc _ => hh.2.2.2 hc (.inl rfl)⟩)
   | done =>
     cases oB with
     | retry _ => exact hout.elim
     | done =>
       simp only
-      refine S2.mono (S2.andL (toContinuable_sim ps fr ns cont rA rB hr hl2 h2) (F := fun a _ => cont = false → a = rA)
+      refine S2.mono (S2.andL (toContinuable_sim fr cont rA rB hr hl2 h2 hcl2) (F := fun a _ => cont = false → a = rA)
         (fun a sA' e hc => by subst hc; rw [toContinuable_false] at e; cases e; rfl))
         (fun _ _ _ _ hh => ⟨hh.1.1, fun e => hh.1.2.1 (heq e), hh.1.2.2, fun hc hpre => ?_⟩)
       rw [hh.2 hc]
@@ -186,19 +186,19 @@ theorem openBlocksLoop_sim {src al} (ps : PS src al) (fr : Frames al) (ot : OT s
   intro fA
   induction fA with
   | zero =>
-    intro fB _ q result resultB lbA lbB k ls p sA sB _ _ _
+    intro fB _ q result resultB lbA lbB k ls p sA sB _ _ _ _
     unfold openBlocksLoop
     exact S2.errL rfl
   | succ fA ih =>
-    intro fB hle q result resultB lbA lbB k ls p sA sB h hl hres
+    intro fB hle q result resultB lbA lbB k ls p sA sB h hl hres hcl
     obtain ⟨fB', rfl⟩ : ∃ f, fB = f + 1 := ⟨fB - 1, by omega⟩
     have ih' := ih fB' (by omega)
     -- the exit through `toContinuable` before any parser was tried
-    have tc : ∀ {sA3 sB3 : St}, DR src al k ls p sA3 sB3 → ¬ NBV src ls p →
+    have tc : ∀ {sA3 sB3 : St}, DR src al k ls p sA3 sB3 → sA3.pc.opened = sA.pc.opened → ¬ NBV src ls p →
         S2 (fun a b sA' sB' => RRes cont a b ∧ (resultB = result → b = a) ∧ (∃ p', DR src al k ls p' sA' sB') ∧
           OLU src ls p cont result a) (toContinuable cont result lbA sA3) (toContinuable cont resultB lbB sB3) := by
-      intro sA3 sB3 h3 hnb
-      refine S2.mono (S2.andL (toContinuable_sim ps fr ns cont result resultB hres hl h3)
+      intro sA3 sB3 h3 ho3 hnb
+      refine S2.mono (S2.andL (toContinuable_sim fr cont result resultB hres hl h3 (hcl.congr ho3))
         (F := fun a _ => cont = false → a = result)
         (fun a sA' e hc => by subst hc; rw [toContinuable_false] at e; cases e; rfl))
         (fun _ _ _ _ hh => ⟨hh.1.1, hh.1.2.1, hh.1.2.2, fun hc hpre => ?_⟩)
@@ -207,28 +207,35 @@ theorem openBlocksLoop_sim {src al} (ps : PS src al) (fr : Frames al) (ot : OT s
       · exact e
       · exact absurd hn hnb
     unfold openBlocksLoop
-    refine S2.bind (peekLine_l h) (fun a b sA1 sB1 hq => ?_)
-    obtain ⟨ea, eb, h1⟩ := hq
+    refine S2.bind (S2.andL (peekLine_l h) (F := fun _ sA' => sA'.pc.opened = sA.pc.opened)
+      (fun _ sA' e => peekLine_keeps (openedIs_frame sA.pc.opened).mods.noR sA _ sA' rfl e)) (fun a b sA1 sB1 hq => ?_)
+    obtain ⟨⟨ea, eb, h1⟩, ho1⟩ := hq
     subst ea eb
     simp only
-    refine S2.bind (lineOffset_l h1) (fun loA loB sA2 sB2 hq => ?_)
-    obtain ⟨_, h2⟩ := hq
+    refine S2.bind (S2.andL (lineOffset_l h1) (F := fun _ sA' => sA'.pc.opened = sA1.pc.opened)
+      (fun _ sA' e => lineOffset_keeps (openedIs_frame sA1.pc.opened).mods.noR sA1 _ sA' rfl e)) (fun loA loB sA2 sB2 hq => ?_)
+    obtain ⟨⟨_, h2⟩, ho2⟩ := hq
     have htf := viewA_tf_la h.r.tf ls p
     rw [indentWidthI_tf _ htf loB loA]
     generalize hwp : indentWidthI ((viewA src ls p).getD []) loA = wp
     obtain ⟨w, pos⟩ := wp
     have hw : w = (indentWidthI ((viewA src ls p).getD []) loA).1 := by rw [hwp]
     simp only
-    refine S2.bind (modPc_l h2 _ _ (fun a b hab => ?_) (fun a n ha => ?_)) (fun _ _ sA3 sB3 h3 => ?_)
+    refine S2.bind (S2.andL (modPc_l h2 _ _ (fun a b hab => ?_) (fun a n ha => ?_))
+      (F := fun _ sA' => sA'.pc.opened = sA2.pc.opened) (fun _ sA' e => ?_)) (fun _ _ sA3 sB3 hq => ?_)
     · split
       · exact ⟨rfl, rfl, hab.opened, hab.tmpPara, hab.fence, hab.skipList, hab.emptyItemBlank⟩
       · exact ⟨rfl, rfl, hab.opened, hab.tmpPara, hab.fence, hab.skipList, hab.emptyItemBlank⟩
     · split
-      · exact ⟨ha.opened, ha.tmp, ha.fence, ha.u⟩
-      · exact ⟨ha.opened, ha.tmp, ha.fence, ha.u⟩
+      · exact ⟨ha.opened, ha.tmp, ha.fence, ha.u, ha.pk⟩
+      · exact ⟨ha.opened, ha.tmp, ha.fence, ha.u, ha.pk⟩
+    · unfold modPc at e; cases e; simp only; split <;> rfl
+    obtain ⟨h3, ho3'⟩ := hq
+    have ho3 : sA3.pc.opened = sA.pc.opened := by rw [ho3', ho2, ho1]
+    have hcl3 : HC cont result lbA sA3 := hcl.congr ho3
     by_cases hnone : (viewA src ls p).isNone = true
     · rw [if_pos hnone, if_pos hnone]
-      refine tc h3 (fun hn => ?_)
+      refine tc h3 ho3 (fun hn => ?_)
       unfold NBV at hn
       rw [Option.isNone_iff_eq_none.mp hnone] at hn
       simp [isBlank] at hn
@@ -238,7 +245,7 @@ theorem openBlocksLoop_sim {src al} (ps : PS src al) (fr : Frames al) (ot : OT s
     rw [ec, e1, e2]
     by_cases hc10 : (c == 10) = true
     · rw [if_pos hc10, if_pos hc10]
-      exact tc h3 (nbv_first10 h.r.inl hcidx (by simpa using hc10))
+      exact tc h3 ho3 (nbv_first10 h.r.inl hcidx (by simpa using hc10))
     rw [if_neg hc10, if_neg hc10]
     by_cases hpl : pos < (((viewA src ls p).getD []).length : Int)
     · rw [if_pos hpl, if_pos hpl]
@@ -248,10 +255,10 @@ theorem openBlocksLoop_sim {src al} (ps : PS src al) (fr : Frames al) (ot : OT s
       have hmem : d ∈ src := by
         obtain ⟨_, _, hb⟩ := idx_view_la hd
         exact List.mem_of_getElem? hb
-      exact obJp_sim ps fr ot ns bA bB cont ih' q w result resultB hl _ (tr.trig d hmem) h3 hres
+      exact obJp_sim ps fr ot ns bA bB cont ih' q w result resultB hl _ (tr.trig d hmem) h3 hres hcl3
         (fun _ => (free_mem_triggered d).1) (fun _ => ⟨(free_mem_triggered d).2, loA, hw⟩)
     · rw [if_neg hpl, if_neg hpl]
-      exact obJp_sim ps fr ot ns bA bB cont ih' q w result resultB hl _ tr.free h3 hres
+      exact obJp_sim ps fr ot ns bA bB cont ih' q w result resultB hl _ tr.free h3 hres hcl3
         (fun _ => by simp [freeParsers]) (fun _ => ⟨by simp [freeParsers], loA, hw⟩)
 
 theorem qp_length_ge_len (src : Bytes) : src.length ≤ (quotePrefix src).length := by
@@ -292,7 +299,8 @@ theorem openBlocks_sim {src al} (ps : PS src al) (fr : Frames al) (ot : OT src) 
     show S2 _ ((source >>= fun x => openBlocksLoop bA false (retryFuel x) q .noBlocksOpened none) sA)
       ((source >>= fun x => openBlocksLoop bB false (retryFuel x) (q + 1) .noBlocksOpened (some bqBlock)) sB)
     rw [bind_run esA, bind_run esB]
-    exact S2.mono (openBlocksLoop_sim ps fr ot ns tr bA bB false _ _ fuel q _ _ _ _ h (.inr hl) (.inl rfl))
+    exact S2.mono (openBlocksLoop_sim ps fr ot ns tr bA bB false _ _ fuel q _ _ _ _ h (.inr hl) (.inl rfl)
+        (fun hc => by cases hc))
       (fun _ _ _ _ hh => ⟨hh.2.1 rfl, hh.2.2.1, fun _ hnb => hh.2.2.2 rfl (.inr ⟨rfl, hnb⟩)⟩)
   · rw [ea, eb] at hl ⊢
     obtain ⟨_, hx0⟩ := hl.ok x rfl
@@ -308,7 +316,13 @@ theorem openBlocks_sim {src al} (ps : PS src al) (fr : Frames al) (ot : OT src) 
     show S2 _ ((source >>= fun y => openBlocksLoop bA _ (retryFuel y) q .noBlocksOpened (some x)) sA)
       ((source >>= fun y => openBlocksLoop bB _ (retryFuel y) (q + 1) .noBlocksOpened (some (shB x))) sB)
     rw [bind_run esA, bind_run esB]
-    exact S2.mono (openBlocksLoop_sim ps fr ot ns tr bA bB _ _ _ fuel q _ _ _ _ h (.inr hl) (.inl rfl))
+    have hcl : HC ((sA.nodes.getD x.node default).kind == Kind.paragraph) OpenResult.noBlocksOpened (some x) sA := by
+      intro hc _
+      refine ⟨ea.symm, fun y hy => ?_⟩
+      cases hy
+      have hk := (h.a.pk x (List.mem_of_getLast? ea)).2
+      exact bp_kind_paragraph (by rw [← hk]; simpa using hc)
+    exact S2.mono (openBlocksLoop_sim ps fr ot ns tr bA bB _ _ _ fuel q _ _ _ _ h (.inr hl) (.inl rfl) hcl)
       (fun _ _ _ _ hh => ⟨hh.2.1 rfl, hh.2.2.1, fun ho _ => by rw [ho] at ea; cases ea⟩)
 
 end GM.Blocks
